@@ -438,6 +438,10 @@ func (e *exTr) round(v exVal, p int, st *exState, k func(exVal, *exState)) {
 		k(exConst(roundRat(v.Const, p)), st)
 		return
 	}
+	if v.Scale > 900 || v.Scale < -900 {
+		e.fail("value scaled by 2^%d: outside the exponent range the model covers", -v.Scale)
+		return
+	}
 	// exactly representable: integer significand below 2^p
 	if v.Den.Cmp(big.NewInt(1)) == 0 {
 		m := maxRat(new(big.Rat).Abs(v.Lo), new(big.Rat).Abs(v.Hi))
